@@ -890,7 +890,19 @@ def uniform_post(ctx, f):
     ctx.check(astq.in_texts(wv, ("cbuffer[blocksize:blocksize+nwrap]", "cbuffer[blocksize:nwrap+blocksize]",)), R, f, wrap,
               "the last nwrap samples become the next block's history", "history wrap copies %s" % astq.text(wrap.value))
     # interleave when the last channel is done
-    il = [s for s in ast.walk(block) if isinstance(s, ast.If) and astq.eq_text(s.test, "chan==nchan-1")]
+    def _last_channel_test(t):
+        # chan == nchan - 1 in any arrangement of the equation (chan + 1 == nchan, nchan - 1 == chan, nchan == chan + 1 ...)
+        if not (isinstance(t, ast.Compare) and len(t.ops) == 1 and isinstance(t.ops[0], ast.Eq)):
+            return False
+        try:
+            ev_ = SymEval(prog, f)
+            ev_.env = {}
+            d_ = S.sub(ev_.expr(t.left), ev_.expr(t.comparators[0]))
+            w_ = S.sub(S.sym("chan"), S.sub(S.sym("nchan"), S.ONE))
+            return S.compare(d_, w_, domain={})["verdict"] == "equal" or S.compare(d_, S.neg(w_), domain={})["verdict"] == "equal"
+        except Exception:
+            return False
+    il = [s for s in ast.walk(block) if isinstance(s, ast.If) and _last_channel_test(s.test)]
     ctx.check(len(il) == 1, R, f, block, "samples are emitted when the last channel of a block is decoded", "no `if chan == nchan - 1` emission step")
     if il:
         stores = [s for s in il[0].body if isinstance(s, ast.Assign) and astq.eq_text(s.targets[0], "data[:nitem]")]
@@ -933,10 +945,29 @@ def bitreader(ctx, f, R="R-C13-bitreader"):
     for guard, v, _ in reversed(ev.returns):
         val = v if val is None else S.cond(guard, v, val)
     uv = S.call("_sphere.copy_shortened_samples.<locals>.uvar_get", S.add(S.sym(vg.params[0]), S.ONE))
-    want = S.cond(S.call("bitand", uv, S.ONE), S.call("invert", S.call("rshift", uv, S.ONE)), S.call("rshift", uv, S.ONE))
-    ok = val is not None and S.compare(val, want, domain={})["verdict"] == "equal"
-    ctx.check(ok, R, vg, vg.node, "signed values are read with nbin+1 bits and unfolded: odd -> ~(u >> 1), even -> u >> 1",
-              "var_get returns %s; shorten folds the sign into the low bit of an (nbin+1)-bit unsigned code" % (S.show(val)[:160] if val is not None else None))
+    # by evaluation: with u the (nbin+1)-bit unsigned code, the value is ~(u >> 1) for odd u and u >> 1 for even u - whatever the
+    # spelling (u & 1 or u % 2, ~x or -x - 1, >> 1 or // 2)
+    from .. import scenario as SC
+    ok, why = False, None
+    if val is not None:
+        others = [x for x in S.walk(val) if isinstance(x, S.E) and x.op == "call" and str(x.args[0]).endswith("uvar_get") and x != uv]
+        vu = S.subst(val, {uv: S.sym("U")})
+        if others:
+            why = "it reads %s" % S.show(others[0])[:60]
+        else:
+            try:
+                bad_u = [u for u in list(range(0, 70)) + [255, 256, 1023, 65535, 65536] if SC.int_eval(vu, {"U": u}) != ((~(u >> 1)) if (u & 1) else (u >> 1))]
+                ok = not bad_u
+                if bad_u:
+                    why = "for the code %d it gives %d, shorten's value is %d" % (bad_u[0], SC.int_eval(vu, {"U": bad_u[0]}), (~(bad_u[0] >> 1)) if (bad_u[0] & 1) else (bad_u[0] >> 1))
+            except ValueError as e_:
+                ok, why = None, str(e_)
+    if ok is None:
+        ctx.error(R, "cannot decide the sign unfolding of var_get (%s): %s" % (why, S.show(val)[:120]))
+    else:
+        ctx.check(bool(ok), R, vg, vg.node, "signed values are read with nbin+1 bits and unfolded: odd -> ~(u >> 1), even -> u >> 1",
+                  "var_get returns %s (%s); shorten folds the sign into the low bit of an (nbin+1)-bit unsigned code" % (S.show(val)[:120] if val is not None else None, why),
+                  robust=True)
     ug = prog.nested(f, "ulong_get")
     ev = SymEval(prog, ug).run()
     v = ev.returns[0][1] if ev.returns else None
